@@ -605,7 +605,12 @@ def run(tier, rng):
 
 
 def generate():
-    return gen_registry.generate()
+    info = gen_registry.generate()
+    # translator tie (bld-compiler): C04_source_function_lookup is stated over coq/Gen/SrcLookup.v, regenerated here from
+    # the source of the imported beanquery.types (types.function_lookup, _bases); see harness/vf/src_compiler.py
+    from . import gen_src
+    info.update(gen_src.generate('lookup'))
+    return info
 
 
 def _unjson_rows(c):
